@@ -112,6 +112,37 @@ proof fn lemma_cname_result_consistent(r: ZoneResult, node: ZoneRecords, qname: 
     }
 }
 
+// corollary used (as an assumption) by unit `local`: owners of what a lookup returns (owners_ok: units/base.py OWNERS_OK_RS)
+proof fn lemma_terminal_owners(r: ZoneResult, m: Map<RecordType, Vec<ZoneRecord>>, qname: DomainName, qtype: QueryType, cut: DomainName, delegable: bool)
+    requires terminal_ok(r, m, qname, qtype, cut, delegable)
+    ensures owners_ok(r, qname)
+{
+    if r is Answer {
+        assert forall|i: int| 0 <= i < r->rrs@.len() implies (#[trigger] r->rrs@[i]).name == qname by {
+            if qtype == QueryType::Wildcard {
+                let (t, j) = choose|t: RecordType, j: int| m.contains_key(t) && 0 <= j < m[t]@.len() && #[trigger] r->rrs@[i] == to_rr_spec(#[trigger] m[t]@[j], qname);
+            }
+        }
+    }
+}
+broadcast proof fn lemma_result_owners(r: ZoneResult, node: ZoneRecords, qname: DomainName, qtype: QueryType, rel: Seq<Label>, at_apex: bool)
+    requires #[trigger] lookup_ok(r, node, qname, qtype, rel, at_apex)
+    ensures owners_ok(r, qname)
+    decreases rel.len()
+{
+    if rel.len() == 0 {
+        lemma_terminal_owners(r, node.this@, qname, qtype, node.nsdname, !at_apex);
+    } else {
+        let l = rel.last();
+        if node.children@.contains_key(l) {
+            lemma_result_owners(r, node.children@[l], qname, qtype, rel.drop_last(), false);
+        } else if node.wildcards is Some {
+            let cut = choose|cut: DomainName| cut.labels@ == seq![l] + node.nsdname.labels@ && #[trigger] terminal_ok(r, node.wildcards->Some_0@, qname, qtype, cut, true);
+            lemma_terminal_owners(r, node.wildcards->Some_0@, qname, qtype, cut, true);
+        }
+    }
+}
+
 proof fn lemma_tree_wf_root(zr: ZoneRecords)
     requires tree_wf(zr)
     ensures node_ok(zr, zr.nsdname.labels@)
